@@ -204,6 +204,40 @@ def main(tier):
                         break
     chk.evaluations += len(extra) ** 2
     chk.extra["sound_pairs_checked_cross_type_and_partial_order"] = xsound
+    # ---- constants that are NEARLY equal (adjacent doubles, rounding noise such as 0.1 + 0.2 against 0.3, large values half a unit
+    # apart, an int and the float next to it): the comparisons inside implies are the exact ones the predicates themselves use
+    import math
+
+    near, nprobes = [], []
+    for c in (0.3, 1.0, 2.5, 1e10, 1e16, -7.25, 100):
+        f = float(c)
+        cs = [c, math.nextafter(f, math.inf), math.nextafter(f, -math.inf), f * (1 + 1e-12), f * (1 - 1e-12), f + 0.5 if abs(f) >= 1e9 else f + 1e-10]
+        if c == 0.3:
+            cs.append(0.1 + 0.2)
+        mids = sorted(set(cs))
+        nprobes += mids + [(a + b) / 2 for a, b in zip(mids, mids[1:])]
+        group = []
+        for v in mids:
+            group += [(f"eq_p({v!r})", eq_p(v)), (f"ne_p({v!r})", ne_p(v)), (f"ge_p({v!r})", ge_p(v)), (f"gt_p({v!r})", gt_p(v)), (f"le_p({v!r})", le_p(v)), (f"lt_p({v!r})", lt_p(v)),
+                      (f"in_p({v!r}, 5)", in_p(v, 5)), (f"not_in_p({v!r})", not_in_p(v))]
+        near.append(group)
+    nsound = 0
+    for group in near:
+        ntab = [[val(p_, x) for x in nprobes] for _d, p_ in group]
+        for i, (di, pi) in enumerate(group):
+            for j, (dj, pj) in enumerate(group):
+                try:
+                    r = implies(pi, pj)
+                except Exception:  # noqa: BLE001
+                    continue
+                if r:
+                    nsound += 1
+                    for k, x in enumerate(nprobes):
+                        if ntab[i][k] is True and ntab[j][k] is False:
+                            chk.add_failure(f"implies({di}, {dj})", {"what": "returns True but a value satisfies p and not q (constants that are nearly equal)", "value": repr(x)}, None)
+                            break
+        chk.evaluations += len(group) ** 2
+    chk.extra["sound_pairs_checked_nearly_equal_constants"] = nsound
     chk.extra["sound_pairs_checked"] = sound_checked
     chk.extra["listed_false_pairs_checked_for_completeness"] = complete_checked
     chk.rule = (
